@@ -1348,8 +1348,18 @@ def rule_rio_layout(prog: Program) -> List[Instance]:
     for n in walk_own(w.node):
         if isinstance(n, ast.Assign) and len(n.targets) == 1 and short(n.targets[0]) == pix and isinstance(n.value, ast.Call):
             cs = conds_at(cond, n)
-            band_last = any(p and isinstance(e, ast.Compare) and isinstance(e.ops[0], ast.Eq) and isinstance(e.left, ast.Subscript) and short(e.left.value) == f"{pix}.shape"
-                            and isinstance(e.left.slice, ast.Slice) and e.left.slice.lower is None and const_num(e.left.slice.upper) == 2 for e, p in cs)
+
+            def _is_band_last_test(e: ast.AST) -> bool:
+                return isinstance(e, ast.Compare) and isinstance(e.ops[0], ast.Eq) and isinstance(e.left, ast.Subscript) and short(e.left.value) == f"{pix}.shape" \
+                    and isinstance(e.left.slice, ast.Slice) and e.left.slice.lower is None and const_num(e.left.slice.upper) == 2
+
+            band_last = any(p and _is_band_last_test(e) for e, p in cs)
+            # ... or a flag computed from that test / from the caller's ydim
+            for e, p in cs:
+                if p and isinstance(e, ast.Name):
+                    for x in walk_own(w.node):
+                        if isinstance(x, ast.Assign) and any(isinstance(t, ast.Name) and t.id == e.id for t in x.targets) and (any(_is_band_last_test(y) for y in ast.walk(x.value)) or "ydim" in names_in(x.value)):
+                            band_last = True
             if not band_last:
                 continue
             n_perm += 1
